@@ -44,9 +44,11 @@ Section SchemaInd.
   Variable P : schema -> Prop.
   Hypothesis HLf : forall t d, P (SLeaf t d).
   Hypothesis HNd : forall fs, Forall (fun kv => P (snd kv)) fs -> P (SNode fs).
+  Hypothesis HOpt : forall s, P s -> P (SOpt s).
   Fixpoint schema_nested_ind (s : schema) : P s :=
     match s with
     | SLeaf t d => HLf t d
+    | SOpt s' => HOpt s' (schema_nested_ind s')
     | SNode fs => HNd fs ((fix go (l : list (string * schema)) : Forall (fun kv => P (snd kv)) l :=
                              match l with
                              | [] => Forall_nil _
@@ -337,6 +339,8 @@ Section Generic.
     match s, x with
     | SLeaf t defn, ILeaf v => vvc t defn (enc' v) = Ok v
     | SNode fs, INode xs => NoDup (map fst fs) /\ all2P loops fs xs
+    | SOpt s', ILeaf VNone => absent_err str2bool emc edn s' = None      (* an Optional member that is None *)
+    | SOpt s', INode _ => loops s' x    (* ... that holds an instance *)
     | _, _ => False
     end.
 
@@ -374,6 +378,37 @@ Section Generic.
       intros n x Hin. apply assoc_In_nodup.
       + rewrite map_fst_retag. rewrite Hnames. exact Hnd.
       + apply in_map_iff. exists (n, x). split; [reflexivity|exact Hin].
+    - intros s IH x H. destruct x as [v|xs|w]; try exact (False_ind _ H).
+      + destruct v; try exact (False_ind _ H). cbn [loops] in H. unfold ld, tod. cbn [to_dict encode_cfg load_cfg]. rewrite H. reflexivity.
+      + cbn [loops] in H. specialize (IH (INode xs) H). unfold ld, tod in IH |- *. cbn [to_dict load_cfg] in IH |- *. exact IH.
+  Qed.
+
+  (* a class whose Tuple fields all have definition defaults is processed without error when the member is None *)
+  Lemma as_default_none t : as_argparse_default edn t VNone = VNone.
+  Proof. unfold as_argparse_default. destruct edn; [destruct t|]; reflexivity. Qed.
+
+  Lemma member_loads_ok : forall s, member_loads s = true -> absent_err str2bool emc edn s = None.
+  Proof.
+    apply (schema_nested_ind (fun s => member_loads s = true -> absent_err str2bool emc edn s = None)).
+    - intros t defn H. cbn [absent_err].
+      assert (Hnone : match t with TTupFix _ | TTupVar _ => false | _ => true end = true ->
+                      finish_default str2bool emc edn t VNone = Ok VNone).
+      { intros Ht. destruct t; try discriminate Ht; try (unfold finish_default; rewrite as_default_none; reflexivity).
+        apply finish_opt_none. }
+      destruct defn as [d|]; cbn [member_loads field_default] in *.
+      + destruct (match d with VNone => true | _ => false end) eqn:Ed.
+        * destruct d; try discriminate Ed. rewrite (Hnone H). reflexivity.
+        * assert (Hd : d <> VNone) by (intro E; subst d; discriminate Ed).
+          assert (H' : cfg_type t && has_type d t = true) by (destruct d; try exact H; discriminate Ed).
+          apply andb_true_iff in H'. destruct H' as [Hc Ht].
+          pose proof (finish_live t d Hc Ht Hd) as Hl. unfold fin in Hl.
+          destruct d; try (rewrite Hl; reflexivity); discriminate Ed.
+      + rewrite (Hnone H). reflexivity.
+    - intros fs IH H. cbn [member_loads absent_err] in *.
+      induction IH as [|[n s'] r Hhd _ IHr]; [reflexivity|].
+      cbn [forallb snd first_err_fields] in *. apply andb_true_iff in H. destruct H as [H1 H2].
+      rewrite (Hhd H1). apply IHr. exact H2.
+    - intros s IH H. cbn [member_loads absent_err] in *. apply IH. exact H.
   Qed.
 
   (* the property's quantifier and the side conditions give the leaf-wise premise *)
@@ -402,6 +437,9 @@ Section Generic.
       apply andb_true_iff in Hq. destruct Hq as [Hnd Hq]. split.
       + apply str_nodupb_NoDup. exact Hnd.
       + apply quantifier_all2; assumption.
+    - intros s IH x Hq Hs. destruct x as [v|xs|w]; try discriminate Hq.
+      + destruct v; try discriminate Hq. cbn [side_conditions loops] in *. apply member_loads_ok. exact Hs.
+      + cbn [in_quantifier side_conditions loops] in *. destruct s; try discriminate Hq. apply IH; assumption.
   Qed.
 
   (* ---------- the file ---------- *)
@@ -510,6 +548,9 @@ Section Generic.
       induction IH as [|[n s'] r Hhd _ IHr]; intros [|[m x'] r2] Hq; try discriminate Hq; [reflexivity|].
       cbn [all2b] in Hq |- *. apply andb_true_iff in Hq. destruct Hq as [Hq Hq3]. apply andb_true_iff in Hq. destruct Hq as [Hq1 Hq2].
       cbn [snd] in Hhd. rewrite Hq1, (Hhd x' Hq2), (IHr r2 Hq3). reflexivity.
+    - intros s IH x Hq. destruct x as [v|xs|w]; try discriminate Hq.
+      + destruct v; try discriminate Hq. reflexivity.
+      + cbn [in_quantifier inst_typed] in *. destruct s; try discriminate Hq. apply IH; assumption.
   Qed.
 
   Theorem tree_meets_spec sfx s x :
@@ -630,3 +671,19 @@ Proof. exact (tree_meets_spec str2bool_gen enum_miss_cls_gen encode_table_gen ex
 Theorem rooted_same_gen : forall dest sfx s x,
   str_in sfx four_suffixes = true -> config_loop_rooted_gen dest sfx s x = config_loop_gen sfx s x.
 Proof. exact (rooted_same str2bool_gen enum_miss_cls_gen encode_table_gen extensions_gen enum_default_as_name_gen gen_enum gen_path gen_list gen_tuple gen_exts). Qed.
+
+(* Optional[Class] = None members *)
+Theorem optional_member_none_gen : forall s,
+  member_loads s = true -> load_cfg_gen (SOpt s) (Some (to_dict_gen (ILeaf VNone))) = Ok (ILeaf VNone).
+Proof.
+  intros s H. unfold load_cfg_gen, to_dict_gen. cbn [to_dict encode_cfg load_cfg].
+  rewrite (member_loads_ok str2bool_gen enum_miss_cls_gen enum_default_as_name_gen s H). reflexivity.
+Qed.
+
+(* a member that is None whose class has a Tuple field without a default: postprocess calls tuple(None) *)
+Theorem witness_absent_member_tuple :
+  load_cfg_gen (SOpt (SNode [("t", SLeaf (TTupFix [TInt; TInt]) None)])) (Some (to_dict_gen (ILeaf VNone))) = Err (Raise "TypeError").
+Proof. vm_compute. reflexivity. Qed.
+Theorem optional_member_some_gen : forall s xs,
+  load_cfg_gen (SOpt s) (Some (to_dict_gen (INode xs))) = load_cfg_gen s (Some (to_dict_gen (INode xs))).
+Proof. intros s xs. reflexivity. Qed.
